@@ -231,9 +231,40 @@ func randomCase(r *rand.Rand, tier string) *caseT {
 	}
 	c.own = files
 
-	// ill-formed descriptor sets
-	if r.Intn(8) == 0 {
-		switch k := r.Intn(5); k {
+	// ill-formed descriptor sets: file-level (dangling import, cycle, duplicate file name) and
+	// symbol-level (duplicate symbol; a method type defined nowhere; a method type defined in a file
+	// that is served but not imported) — the latter are what a stale shared .proto looks like
+	if r.Intn(5) == 0 {
+		// breakType points one type of one method of a service file at `typ`
+		breakType := func(typ func(f *fileT) string) bool {
+			if len(svcFiles) == 0 {
+				return false
+			}
+			f := svcFiles[r.Intn(len(svcFiles))]
+			t := typ(f)
+			if t == "" {
+				return false
+			}
+			sv := &f.svcs[r.Intn(len(f.svcs))]
+			if len(sv.methods) == 0 {
+				sv.methods = append(sv.methods, methodT{name: "Call0", in: t, out: t, ss: r.Intn(2) == 0})
+				return true
+			}
+			m := &sv.methods[r.Intn(len(sv.methods))]
+			if r.Intn(2) == 0 {
+				m.in = t
+			} else {
+				m.out = t
+			}
+			return true
+		}
+		nowhere := func(f *fileT) string {
+			if r.Intn(2) == 0 {
+				return f.pkg + ".Gone" // same package, declared in no file
+			}
+			return "nope.Missing"
+		}
+		switch k := r.Intn(8); k {
 		case 0:
 			count("illformed:dangling")
 			f := files[r.Intn(n)]
@@ -257,20 +288,45 @@ func randomCase(r *rand.Rand, tier string) *caseT {
 				files[j].msgs = append(files[j].msgs, files[i].msgs[0])
 			}
 		case 3:
-			count("illformed:type")
-			if len(svcFiles) > 0 {
-				f := svcFiles[r.Intn(len(svcFiles))]
-				if len(f.svcs[0].methods) > 0 {
-					f.svcs[0].methods[0].in = "nope.Missing"
-				}
-			}
-		case 4:
 			count("illformed:dupfile")
 			if n >= 2 {
 				g := *files[n-1]
 				g.raw = nil
 				g.name = files[0].name
 				c.own = append(c.own, &g)
+			}
+		case 4, 5:
+			if breakType(nowhere) {
+				count("illformed:type-nowhere")
+			}
+		default:
+			moved := func(f *fileT) string {
+				var cands []*fileT
+				for _, g := range files {
+					if g == f {
+						continue
+					}
+					imported := false
+					for _, d := range f.deps {
+						imported = imported || d == g.name
+					}
+					if !imported {
+						cands = append(cands, g)
+					}
+				}
+				if len(cands) == 0 {
+					return ""
+				}
+				g := cands[r.Intn(len(cands))]
+				if len(g.msgs) == 0 {
+					g.msgs = append(g.msgs, g.pkg+".Moved")
+				}
+				return g.msgs[r.Intn(len(g.msgs))]
+			}
+			if breakType(moved) {
+				count("illformed:type-moved")
+			} else if breakType(nowhere) {
+				count("illformed:type-nowhere")
 			}
 		}
 	}
@@ -577,6 +633,24 @@ func edgeCases() []string {
 		add(&caseT{own: []*fileT{a, b, c}, polls: []pollT{{modes: both, listed: []string{"a.A", "b.B"}, pol: "on.t:1:garbage=s:a.A"}}})
 		a, b, c = mk()
 		add(&caseT{own: []*fileT{a, b, c}, polls: []pollT{{modes: both, listed: []string{"a.A", "b.B"}, pol: "on.t:1:badtype=s:a.A"}}})
+	}
+	// symbol-level inconsistency: every imported file is served, but a method type is defined nowhere /
+	// only in a served file that is not imported (stale shared .proto) — must be an error report
+	{
+		a, b, c := mk()
+		a.svcs[0].methods[0].out = "c.Reply" // c.proto is served and imported, but declares no Reply
+		add(&caseT{own: []*fileT{a, b, c}, polls: []pollT{{modes: both, listed: []string{"a.A"}, pol: "cl.t:1"}}})
+		a, b, c = mk()
+		a.svcs[0].methods[0].in = "nope.Missing"
+		add(&caseT{own: []*fileT{a, b, c}, polls: []pollT{{modes: both, listed: []string{"a.A", "b.B"}, pol: "on.t:1"}}})
+		a, b, c = mk()
+		d := &fileT{name: "d.proto", pkg: "d", msgs: []string{"d.M"}}
+		b.deps = append(b.deps, "d.proto")
+		a.svcs[0].methods[0].out = "d.M" // d.proto reaches the registry through b.proto, a.proto does not import it
+		add(&caseT{own: []*fileT{a, b, c, d}, polls: []pollT{{modes: both, listed: []string{"a.A", "b.B"}, pol: "cm.t:1"}}})
+		a, b, c = mk()
+		a.svcs[0].methods[0].out = "c.Reply"
+		add(&caseT{wire: true, own: []*fileT{a, b, c}, polls: []pollT{{modes: [2]string{"uS", "ok"}, listed: []string{"a.A"}, pol: "cl.t:1"}}})
 	}
 	// a conformant service that drip-feeds unrelated files: one more round per file (see C05_unfocused_needs_rounds)
 	return out
